@@ -721,3 +721,94 @@ def gen_thr(rng, tier):
                     for k in range(2):
                         out.append("thr %d %d %d %d %d" % (kind, L, nt, rng.randrange(2, 5), rng.randrange(1, 10**6)))
     return out
+
+
+# ---------------------------------------------------------------------------------------
+# JIT backend
+#   jitforcing  L ncells nspec pad <mech> rc y f        (1 <= ncells <= L)
+#   jitjacobian L ncells nspec pad <mech> rc y
+#   jitlu       L nb n np (r c)*np vals[nb*np] rhs[nb*n]   A = L0*U0, unit lower L0, power-of-two diagonal U0, b = A*x0
+#   jitsolver   L ncells nspec <mech> rc8[ncells*nrxn] y[ncells*nspec] tstep_m tstep_e which
+# ---------------------------------------------------------------------------------------
+def _jit_lu_line(rng, L, nb, n):
+    dens = rng.choice([0.15, 0.3, 0.5, 0.8])
+    lmask = [[r > c and rng.random() < dens for c in range(n)] for r in range(n)]
+    umask = [[r < c and rng.random() < dens for c in range(n)] for r in range(n)]
+    blocks = []
+    for b in range(nb):
+        L0 = [[(1 if r == c else (rng.choice([-2, -1, 1, 2, 3]) if lmask[r][c] else 0)) for c in range(n)] for r in range(n)]
+        U0 = [[(rng.choice([1, -1, 2, -2, 4]) if r == c else (rng.choice([-3, -2, -1, 1, 2, 3]) if umask[r][c] else 0))
+               for c in range(n)] for r in range(n)]
+        A = [[sum(L0[r][k] * U0[k][c] for k in range(n)) for c in range(n)] for r in range(n)]
+        x0 = [rng.randrange(-4, 5) for _ in range(n)]
+        bb = [sum(A[r][c] * x0[c] for c in range(n)) for r in range(n)]
+        blocks.append((A, bb))
+    pairs = sorted(set((r, c) for r in range(n) for c in range(n)
+                       if r == c or any(blk[0][r][c] != 0 for blk in blocks) or rng.random() < 0.05))
+    t = [L, nb, n, len(pairs)]
+    for r, c in pairs:
+        t += [r, c]
+    for A, _ in blocks:
+        t += [A[r][c] for r, c in pairs]
+    for _, bb in blocks:
+        t += bb
+    return "jitlu " + " ".join(map(str, t))
+
+
+def _plain_mech(rng, nspec):
+    """no parameterised species; every reaction has at least one reactant"""
+    names = rng.sample(range(10, 40), nspec)
+    vmap = list(zip(names, range(nspec)))
+    nrxn = rng.randrange(1, 5)
+    rxns = []
+    for _ in range(nrxn):
+        nr = rng.choice([1, 1, 2, 2, 3])
+        reactants = []
+        for _ in range(nr):
+            if reactants and rng.random() < 0.3:
+                reactants.append(rng.choice(reactants))
+            else:
+                reactants.append((rng.choice(names), 0))
+        products = [(rng.choice(names), 0, rng.choice([8, 8, 4, 2, 12, 16])) for _ in range(rng.choice([0, 1, 1, 2, 3]))]
+        rxns.append((reactants, products))
+    return vmap, rxns
+
+
+def gen_jit(rng, tier):
+    out = []
+    for k in range(vol(tier, 120, 3000)):
+        L = rng.randrange(1, 5)
+        ncells = L if rng.random() < 0.7 else rng.randrange(1, L + 1)
+        nspec, vmap, rxns = rand_mech(rng, malformed=(k % 25 == 7))
+        nrxn = len(rxns)
+        rc = [rng.randrange(0, 6) for _ in range(ncells * nrxn)]
+        y = [rng.randrange(-2, 8) for _ in range(ncells * nspec)]
+        f = [rng.randrange(-5, 6) for _ in range(ncells * nspec)]
+        t = [L, ncells, nspec, rng.choice([9, 0, -3])] + mech_tokens(vmap, rxns) + rc + y + f
+        out.append("jitforcing " + " ".join(map(str, t)))
+    for k in range(vol(tier, 120, 3000)):
+        L = rng.randrange(1, 5)
+        ncells = L if rng.random() < 0.7 else rng.randrange(1, L + 1)
+        nspec, vmap, rxns = rand_mech(rng, malformed=(k % 25 == 7))
+        nrxn = len(rxns)
+        rc = [rng.randrange(0, 6) for _ in range(ncells * nrxn)]
+        y = [rng.randrange(-2, 8) for _ in range(ncells * nspec)]
+        t = [L, ncells, nspec, rng.choice([9, 0, -3])] + mech_tokens(vmap, rxns) + rc + y
+        out.append("jitjacobian " + " ".join(map(str, t)))
+    for k in range(vol(tier, 120, 3000)):
+        L = rng.randrange(1, 5)
+        r = rng.random()
+        nb = L if r < 0.7 else (rng.randrange(1, L + 1) if r < 0.85 else rng.randrange(L + 1, 2 * L + 2))
+        out.append(_jit_lu_line(rng, L, nb, rng.choice([1, 2, 3, 3, 4, 4, 5, 6])))
+    for k in range(vol(tier, 60, 1500)):
+        L = rng.randrange(1, 5)
+        r = rng.random()
+        ncells = L if r < 0.75 else (rng.randrange(1, L + 1) if r < 0.87 else rng.randrange(L + 1, 2 * L + 2))
+        nspec = rng.randrange(2, 5)
+        vmap, rxns = _plain_mech(rng, nspec)
+        nrxn = len(rxns)
+        rc = [rng.randrange(1, 40) for _ in range(ncells * nrxn)]
+        y = [rng.randrange(0, 6) for _ in range(ncells * nspec)]
+        t = [L, ncells, nspec] + mech_tokens(vmap, rxns) + rc + y + [rng.choice([1, 3, 5]), rng.choice([-4, -2, 0, 2]), rng.randrange(5)]
+        out.append("jitsolver " + " ".join(map(str, t)))
+    return out
